@@ -160,8 +160,8 @@ OBLIGATIONS = [Obl("tail_long", tail_long, {"shape": I(0, 3), "li": I(0, 6), "x"
                    shards=[{"shape": C(s_), "li": C(l_)} for s_ in range(4) for l_ in range(7)], budget=150, per_path=100,
                    doc="payload lengths 126..129, 255..257 in four shapes followed by 0..2 unconstrained octets")]
 TAILP = {"codec": I(0, 2), "defMode": B, "chunk": I(0, 2 ** 31 - 1), "tlen": I(0, 3), "t0": BYTE, "t1": BYTE, "t2": BYTE}
-for e in all_entries():
-    OBLIGATIONS.append(entry_obl("tail", tail, e, extra=TAILP, budget=90, narrow=True, extra_shards=[{"codec": C(c)} for c in range(3)]))
+for e in all_entries(ber_only=True):
+    OBLIGATIONS.append(entry_obl("tail", tail, e, extra=TAILP, budget=90, narrow=True, extra_shards=[{"codec": C(c)} for c in range(2 if e.has("ber_only") else 3)]))
 for e in select("thorough", "leaf", "univ") + select("thorough", "constructed"):
     if e.id in ("int", "octs", "bool", "seq", "seqof_int", "choice", "set", "bits", "utf8", "int.E", "octs.E", "seq.E"):
         if e.id in ("int", "octs", "bool", "bits", "seq", "seqof_int", "utf8"):
